@@ -275,6 +275,9 @@ fn w_i32_unsigned_abs(x: i32) -> (r: u32) ensures r == (if x >= 0 { x as int } e
     ib.contract("""requires self.code@.len() <= 0xFFFF_FFFF, self.lnotab@.len() <= 0xFFFF_FFFF, self.exceptiontable@.len() <= 0xFFFF_FFFF,
         self.filename.bytes().len() <= 0xFFFF_FFFF, self.name.bytes().len() <= 0xFFFF_FFFF, self.qualname.bytes().len() <= 0xFFFF_FFFF,
         self.consts@.len() <= 0xFFFF_FFFF, self.names@.len() <= 0xFFFF_FFFF, forall|k: int| 0 <= k < self.names@.len() ==> self.names@[k].bytes().len() <= 0xFFFF_FFFF,
+        self.varnames@.len() <= 0xFFFF_FFFF, forall|k: int| 0 <= k < self.varnames@.len() ==> self.varnames@[k].bytes().len() <= 0xFFFF_FFFF,
+        self.freevars@.len() <= 0xFFFF_FFFF, forall|k: int| 0 <= k < self.freevars@.len() ==> self.freevars@[k].bytes().len() <= 0xFFFF_FFFF,
+        self.cellvars@.len() <= 0xFFFF_FFFF, forall|k: int| 0 <= k < self.cellvars@.len() ==> self.cellvars@[k].bytes().len() <= 0xFFFF_FFFF,
     ensures res@ == code_layout(self, python_ver.minor),   // the fields CPython's unmarshaller expects for that version, in its order""")
     ib.body_prologue("broadcast use vstd::seq::group_seq_axioms;")
     ib.insert_at(r'bytes\.append\(&mut w_u32_le_vec\(self\.kwonlyargcount\)\)', "        proof { assert(bytes@ =~= layout_a(self, python_ver.minor)); }", where='before')
@@ -284,6 +287,26 @@ fn w_i32_unsigned_abs(x: i32) -> (r: u32) ensures r == (if x >= 0 { x as int } e
     ib.insert_at(r'(?m)^\s*bytes\s*$', "        proof { assert(bytes@ =~= code_layout(self, python_ver.minor)); }", where='before')
     unit.raw("impl CodeObj {\n")
     unit.add(ib)
+    # ---- dump_locals: the branch for targets below 3.11 (three tuples of names in marshal.c's order) is under contract; the 3.11 branch
+    # (iterator filter / concat) is erased to an assumed stub (R2b)
+    dl = Snippet(csrc.fn('dump_locals', impl=r'CodeObj'), 'CodeObj::dump_locals')
+    rules.strip_vis_attrs(dl)
+    mask = make_mask(dl.text)
+    m = re.search(r'if python_ver\.minor >= Some\(11\) \{', mask)
+    if not m:
+        raise Undecided("CodeObj::dump_locals: the 3.11 branch was not found")
+    cb = match_close(mask, m.end() - 1)
+    if not re.match(r'\s*else\s*\{', mask[cb + 1:]):
+        raise Undecided("CodeObj::dump_locals: the branch for older targets was not found")
+    dl.replace_range('R2b', m.end(), cb, '\n            Self::ext_dump_locals_311(varnames, freevars, cellvars, bytes);\n        ', "3.11 branch (iterator filter/concat) -> ext_dump_locals_311 (assumed: appends locals_enc_311)")
+    dl.rw('R4', r'python_ver\.minor >= Some\((\d+)\)', r'w_minor_ge(python_ver.minor, \1)', expect=1)
+    dl.contract("""requires varnames@.len() <= 0xFFFF_FFFF, forall|k: int| 0 <= k < varnames@.len() ==> varnames@[k].bytes().len() <= 0xFFFF_FFFF,
+        freevars@.len() <= 0xFFFF_FFFF, forall|k: int| 0 <= k < freevars@.len() ==> freevars@[k].bytes().len() <= 0xFFFF_FFFF,
+        cellvars@.len() <= 0xFFFF_FFFF, forall|k: int| 0 <= k < cellvars@.len() ==> cellvars@[k].bytes().len() <= 0xFFFF_FFFF,
+    ensures final(bytes)@ == old(bytes)@ + locals_enc(varnames@, freevars@, cellvars@, python_ver.minor),   // before 3.11: co_varnames, co_freevars, co_cellvars""")
+    dl.body_prologue("broadcast use vstd::seq::group_seq_axioms; let ghost verif_b0 = bytes@; let ghost (verif_v, verif_f, verif_c) = (varnames@, freevars@, cellvars@);")
+    dl.insert_at_end("    proof { assert(bytes@ =~= verif_b0 + locals_enc(verif_v, verif_f, verif_c, python_ver.minor)); }")
+    unit.add(dl)
     unit.raw("}\n")
     # ---- writer: tuples of names and of constants (header + elements) ---------------------------------------------------------
     TUP_INV = """invariant
